@@ -1,14 +1,129 @@
-(* "It fits" implies "the allocation succeeds" when the request names each resource at most once;
-   false for requests whose keys compete for the same cells (the check of can_accomodate_strategy /
-   allocate_multiple looks at each key on its own). *)
+(* The fit test Resources.__gt__ (as of /repo 402c33a it plays the requests in order on a scratch copy
+   of the available vector) says yes EXACTLY when allocate_multiple serves the request: a request that
+   passes the fit test is never refused, and a request that is refused did not pass it.  For requests
+   that name each resource once it coincides with the older per-key test. *)
 From Coq Require Import ZArith Bool List Lia ZifyBool.
 Import ListNotations.
-From Verif Require Import Model.Val Model.Res Model.Worker Proofs.ResP Proofs.ResP2.
+From Verif Require Import Model.Val Model.Res Model.Worker Proofs.ResP Proofs.ResP2 Proofs.WorkerP2.
 Open Scope Z_scope.
 
 Lemma res_match_name : forall a b, res_match a b = true -> fst a = fst b.
 Proof. intros a b H. unfold res_match in H. apply andb_true_iff in H. destruct H as [H _]. lia. Qed.
 
+Lemma gt_take_zero : forall r v, gt_take r 0 v = (v, 0).
+Proof.
+  intros r. induction v as [|[k q] v IH]; cbn [gt_take]; [reflexivity|].
+  rewrite andb_false_r. rewrite IH. reflexivity.
+Qed.
+
+(* when there is enough, the scratch play of one request leaves exactly the vector allocate leaves *)
+Lemma gt_take_alloc : forall r v rem v' recs, nonneg_vec v -> 0 <= rem <= vec_quantity v r ->
+  alloc_loop r rem v = (v', recs) -> gt_take r rem v = (v', 0).
+Proof.
+  intros r. unfold vec_quantity. induction v as [|[k q] v IH]; intros rem v' recs Hn Hr H; cbn [alloc_loop] in H; cbn [gt_take sumP] in *.
+  - inversion H; subst. f_equal. lia.
+  - inversion Hn as [|x l H1 H2]; subst. cbn [snd] in H1.
+    destruct (res_match k r) eqn:Em; cbn [andb].
+    + destruct (rem <=? q) eqn:E1.
+      * inversion H; subst. destruct (0 <? rem) eqn:E0.
+        -- replace (Z.min q rem) with rem by lia. replace (rem - rem) with 0 by lia. rewrite gt_take_zero. reflexivity.
+        -- assert (rem = 0) by lia. subst rem. rewrite gt_take_zero. f_equal. f_equal. f_equal. lia.
+      * destruct (rem - q =? 0) eqn:E2; [lia|].
+        destruct (alloc_loop r (rem - q) v) as [v'' rs] eqn:El. inversion H; subst.
+        destruct (0 <? rem) eqn:E0; [|lia]. replace (Z.min q rem) with q by lia.
+        rewrite (IH (rem - q) v'' rs H2); [|lia|exact El]. f_equal. f_equal.
+        destruct (0 <? q) eqn:E3; f_equal; lia.
+    + destruct (rem =? 0) eqn:E0.
+      * inversion H; subst. assert (rem = 0) by lia. subst rem. rewrite gt_take_zero. reflexivity.
+      * destruct (alloc_loop r rem v) as [v'' rs] eqn:El. inversion H; subst.
+        rewrite (IH rem v'' recs H2); [reflexivity|lia|exact El].
+Qed.
+(* what is left unserved *)
+Lemma gt_take_rem : forall r v rem, nonneg_vec v -> 0 <= rem -> snd (gt_take r rem v) = Z.max 0 (rem - vec_quantity v r).
+Proof.
+  intros r. unfold vec_quantity. induction v as [|[k q] v IH]; intros rem Hn Hr; cbn [gt_take sumP snd].
+  - lia.
+  - inversion Hn as [|x l H1 H2]; subst. cbn [snd] in H1. pose proof (sumP_nonneg (fun k0 => res_match k0 r) v H2) as Hs.
+    destruct (res_match k r) eqn:Em; cbn [andb].
+    + destruct (0 <? rem) eqn:E0.
+      * destruct (gt_take r (rem - Z.min q rem) v) as [v'' rem'] eqn:Eg. cbn [snd].
+        pose proof (IH (rem - Z.min q rem) H2) as X. rewrite Eg in X. cbn [snd] in X. rewrite X by lia. lia.
+      * destruct (gt_take r rem v) as [v'' rem'] eqn:Eg. cbn [snd].
+        pose proof (IH rem H2 Hr) as X. rewrite Eg in X. cbn [snd] in X. rewrite X. lia.
+    + destruct (gt_take r rem v) as [v'' rem'] eqn:Eg. cbn [snd].
+      pose proof (IH rem H2 Hr) as X. rewrite Eg in X. cbn [snd] in X. rewrite X. lia.
+Qed.
+
+Lemma allocate_ok_iff : forall R r c q, (exists R', r_allocate R r c q = (R', Ok tt)) <-> q <= r_available R r.
+Proof.
+  intros R r c q. unfold r_allocate. destruct (r_available R r <? q) eqn:E.
+  - split; [intros (R' & X); discriminate|lia].
+  - destruct (alloc_loop r q (r_avail R)) as [v recs]. split; [lia|eauto].
+Qed.
+
+Theorem gt_play_iff_seq : forall req R c, Nonneg R -> nonneg_vec req ->
+  (gt_play (r_avail R) req = true <-> exists R', alloc_seq R req c = (R', Ok tt)).
+Proof.
+  induction req as [|[r q] req IH]; intros R c HN Hq; cbn [gt_play alloc_seq].
+  - split; eauto.
+  - inversion Hq as [|x l Hq1 Hq2]; subst. cbn [snd] in Hq1.
+    destruct (r_available R r <? q) eqn:Ea.
+    + (* not enough: the play leaves something unserved, allocate raises *)
+      pose proof (gt_take_rem r (r_avail R) q (nn_avail _ HN) Hq1) as X.
+      destruct (gt_take r q (r_avail R)) as [v' rem]. cbn [snd] in X. unfold r_available in Ea.
+      destruct (0 <? rem) eqn:E0; [|lia].
+      unfold r_allocate, r_available. rewrite Ea. split; [discriminate|intros (R' & Y); discriminate].
+    + (* enough: both leave the same vector *)
+      unfold r_allocate. rewrite Ea. destruct (alloc_loop r q (r_avail R)) as [v recs] eqn:El.
+      rewrite (gt_take_alloc r (r_avail R) q v recs (nn_avail _ HN)); [|unfold r_available in Ea; lia|exact El].
+      cbn [Z.ltb Z.compare]. set (R1 := mkRes v (r_total R) (al_append c recs (r_allocs R))).
+      assert (HN1 : Nonneg R1).
+      { apply (nonneg_allocate R r c q R1 (Ok tt) Hq1 HN). unfold r_allocate. rewrite Ea, El. reflexivity. }
+      apply (IH R1 c HN1 Hq2).
+Qed.
+
+(* allocations only lower the available quantities *)
+Lemma allocate_lowers : forall R r c q R' o P, Nonneg R -> 0 <= q -> r_allocate R r c q = (R', o) ->
+  sumP P (r_avail R') <= sumP P (r_avail R).
+Proof.
+  intros R r c q R' o P HN Hq H. unfold r_allocate in H. destruct (r_available R r <? q); [inversion H; lia|].
+  destruct (alloc_loop r q (r_avail R)) as [v recs] eqn:El. inversion H; subst. cbn [r_avail].
+  destruct (alloc_loop_spec _ _ _ _ _ El) as (C & _ & _ & _ & Rn). specialize (C P).
+  pose proof (sumP_nonneg P recs (Rn Hq)). lia.
+Qed.
+Lemma alloc_seq_ok_per_key : forall req R c R', Nonneg R -> nonneg_vec req -> alloc_seq R req c = (R', Ok tt) ->
+  forall rq, In rq req -> snd rq <= r_available R (fst rq).
+Proof.
+  induction req as [|[r q] req IH]; intros R c R' HN Hq H rq Hin; [destruct Hin|].
+  inversion Hq as [|x l Hq1 Hq2]; subst. cbn [snd] in Hq1. cbn [alloc_seq] in H.
+  destruct (r_allocate R r c q) as [R1 [[]|e]] eqn:Ea; [|discriminate].
+  destruct Hin as [Hin|Hin].
+  - subst rq. cbn [fst snd]. apply (allocate_ok_iff R r c q). eauto.
+  - pose proof (IH R1 c R' (nonneg_allocate _ _ _ _ _ _ Hq1 HN Ea) Hq2 H rq Hin) as X.
+    pose proof (allocate_lowers R r c q R1 (Ok tt) (fun k => res_match k (fst rq)) HN Hq1 Ea) as Y.
+    unfold r_available, vec_quantity in *. lia.
+Qed.
+
+(* THE theorem: the fit test says yes exactly when allocate_multiple serves the request *)
+Theorem gt_iff_success : forall R req c, Nonneg R -> nonneg_vec req ->
+  (r_gt R req = true <-> exists R', r_allocate_multiple R req c = (R', Ok tt)).
+Proof.
+  intros R req c HN Hq. unfold r_gt. rewrite (gt_play_iff_seq req R c HN Hq). unfold r_allocate_multiple. split.
+  - intros (R' & Es).
+    assert (E : existsb (fun rq => r_available R (fst rq) <? snd rq) req = false).
+    { destruct (existsb _ req) eqn:E; [|reflexivity]. apply existsb_exists in E. destruct E as (rq & Hin & Hlt).
+      pose proof (alloc_seq_ok_per_key req R c R' HN Hq Es rq Hin). lia. }
+    rewrite E, Es. eauto.
+  - intros (R' & H). destruct (existsb _ req); [discriminate|].
+    destruct (alloc_seq R req c) as [R1 [[]|e]]; [eauto|discriminate].
+Qed.
+Corollary fit_never_refused : forall R req c R' e, Nonneg R -> nonneg_vec req ->
+  r_gt R req = true -> r_allocate_multiple R req c <> (R', Err e).
+Proof.
+  intros R req c R' e HN Hq Hg H. apply (gt_iff_success R req c HN Hq) in Hg. destruct Hg as (R2 & E). congruence.
+Qed.
+
+(* ---- the older per-key test ---- *)
 Lemma alloc_loop_other_name : forall r r' v rem v' recs, fst r' <> fst r -> alloc_loop r rem v = (v', recs) ->
   vec_quantity v' r' = vec_quantity v r'.
 Proof.
@@ -51,31 +166,45 @@ Proof.
   - exfalso. unfold r_allocate in Ea. specialize (Hfit (r, q) (or_introl eq_refl)). cbn [fst snd] in Hfit.
     destruct (r_available R r <? q) eqn:E; [lia|]. destruct (alloc_loop r q (r_avail R)). discriminate.
 Qed.
-
-Theorem fit_implies_success : forall R req c, NoDup (req_names req) -> r_gt R req = true ->
+Theorem per_key_implies_success : forall R req c, NoDup (req_names req) -> r_gt_per_key R req = true ->
   exists R', r_allocate_multiple R req c = (R', Ok tt).
 Proof.
-  intros R req c Hnd Hfit. unfold r_gt in Hfit. rewrite forallb_forall in Hfit. unfold r_allocate_multiple.
+  intros R req c Hnd Hfit. unfold r_gt_per_key in Hfit. rewrite forallb_forall in Hfit. unfold r_allocate_multiple.
   assert (E : existsb (fun rq => r_available R (fst rq) <? snd rq) req = false).
   { destruct (existsb _ req) eqn:E; [|reflexivity]. apply existsb_exists in E. destruct E as (rq & Hin & Hlt). specialize (Hfit rq Hin). lia. }
   rewrite E. destruct (alloc_seq_fits req R c Hnd) as (R' & Es); [intros rq Hin; specialize (Hfit rq Hin); lia|].
   rewrite Es. eauto.
 Qed.
-(* the worker level: after can_accomodate_strategy said yes (because the resources fit), placing a
-   plain strategy, or the first member of a batch, never raises *)
-Theorem w_fit_place_succeeds : forall t s w, NoDup (req_names (s_req s)) -> r_gt (w_res w) (s_req s) = true ->
+(* for requests that name each resource once the two tests coincide *)
+Theorem r_gt_per_key_iff : forall R req, NoDup (req_names req) -> nonneg_vec req -> Nonneg R ->
+  (r_gt R req = true <-> r_gt_per_key R req = true).
+Proof.
+  intros R req Hnd Hq HN. rewrite (gt_iff_success R req (CTask 0) HN Hq). split.
+  - intros (R' & H). unfold r_allocate_multiple in H. unfold r_gt_per_key.
+    destruct (existsb (fun rq => r_available R (fst rq) <? snd rq) req) eqn:E; [discriminate|].
+    apply forallb_forall. intros rq Hin. destruct (snd rq <=? r_available R (fst rq)) eqn:E1; [reflexivity|].
+    exfalso. assert (X : existsb (fun rq => r_available R (fst rq) <? snd rq) req = true) by (apply existsb_exists; exists rq; split; [exact Hin|lia]).
+    congruence.
+  - intro H. apply per_key_implies_success; assumption.
+Qed.
+
+(* the worker level: after can_accomodate_strategy said yes because the resources fit, placing a plain
+   strategy, or the first member of a batch, never raises *)
+Theorem w_fit_place_succeeds : forall t s w, Nonneg (w_res w) -> nonneg_vec (s_req s) -> r_gt (w_res w) (s_req s) = true ->
   (s_is_batch s = true -> 1 <= s_bsize s /\ zfind (s_id s) (w_batches w) = None) ->
   snd (w_place t s w) = Ok tt.
 Proof.
-  intros t s w Hnd Hfit Hb. unfold w_place. destruct (s_is_batch s).
+  intros t s w HN Hq Hfit Hb. unfold w_place. destruct (s_is_batch s).
   - destruct (Hb eq_refl) as [Hs Hz]. rewrite Hz. destruct (s_bsize s <? 1) eqn:E; [lia|].
-    destruct (fit_implies_success (w_res w) (s_req s) (CBatch (w_fresh w)) Hnd Hfit) as (R' & ->). reflexivity.
-  - destruct (fit_implies_success (w_res w) (s_req s) (CTask t) Hnd Hfit) as (R' & ->). reflexivity.
+    destruct (proj1 (gt_iff_success (w_res w) (s_req s) (CBatch (w_fresh w)) HN Hq) Hfit) as (R' & ->). reflexivity.
+  - destruct (proj1 (gt_iff_success (w_res w) (s_req s) (CTask t) HN Hq) Hfit) as (R' & ->). reflexivity.
 Qed.
 
-(* without the hypothesis: it fits, yet the placement is refused (keys competing for the same units) *)
-Lemma fit_not_success_refuted : exists R req c R' e, r_gt R req = true /\ r_allocate_multiple R req c = (R', Err e).
+(* the older per-key test could say yes to a request that is then refused (keys competing for the same
+   units): kept as a statement about r_gt_per_key, which is what allocate_multiple still checks first *)
+Lemma per_key_not_success_refuted :
+  exists R req c R' e, r_gt_per_key R req = true /\ r_allocate_multiple R req c = (R', Err e) /\ r_gt R req = false.
 Proof.
   exists (r_new [((0, RId 0), 1); ((0, RId 1), 1)]), [((0, RAny), 1); ((0, RId 0), 1)], (CTask 0).
-  eexists. eexists. vm_compute. split; reflexivity.
+  eexists. eexists. vm_compute. repeat split; reflexivity.
 Qed.
